@@ -143,7 +143,7 @@ def _run_crosshair(module, func, timeout, path_timeout, env):
     e[GUARD] = "1"
     e["PYTHONHASHSEED"] = "0"
     cmd = [
-        CROSSHAIR, "check", "--report_all",
+        CROSSHAIR, "check", "--report_all", "--extra_plugin", os.path.join(VERIF, "vlib", "xh_plugin.py"),
         "--per_condition_timeout", str(timeout),
         "--per_path_timeout", str(path_timeout),
         "%s.%s" % (module, func),
